@@ -13,8 +13,8 @@ Clauses of the statement and where they are:
 * (i) **frame** — `frame_residue`, `frame_sublist`, `frame_other_nodes`, `frame_comments`, `frame_other_text`,
   `parser_docstr_only_after_def` (full strength: every node list, every edit list, every header-parse oracle);
 * (ii) **erase** — `erase_docTrans_partial` on the stated region, the full statement `erase_docTrans_full` is
-  *false* for the code as it is: `erase_docTrans_not_full_bare_annotation`, `erase_docTrans_not_full_double_string`
-  (both only at the AST level: the CST write-back never writes these changes to the file — that is clause (i));
+  *false* for the code as it is: `erase_docTrans_not_full_bare_annotation`, `erase_docTrans_not_full_double_string`,
+  `erase_docTrans_not_full_bare_name` (all only at the AST level: the CST write-back never writes these changes to the file — that is clause (i));
 * (iii) **failure atomicity** — `failure_atomic`, `failure_leaves_file`, `write_is_last`, `no_change_no_write`;
   `early_open_not_atomic` shows the statement is falsified as soon as the file is opened for writing before a fallible step;
 * (iv) **header re-synthesis** — `header_outside_parens_preserved`, `header_locate_canonical`, `header_resynth_partial`,
@@ -99,9 +99,9 @@ def erase_docTrans_full : Prop :=
 
 open DocTransAst in
 /-- **C07 (ii), partial.**  For every oracle (whatever docstring text / types the docstring machinery chooses):
-    `erase (DocTrans m) = erase m`, provided no function body starts with two string expressions and — when types are
-    moved *out of* annotations — there is no bare declaration `x: T`.  Missing from the full statement: exactly those
-    two regions (negations below). -/
+    `erase (DocTrans m) = erase m`, provided no function body starts with two string expressions or with a bare name /
+    `None` expression statement, and — when types are moved *out of* annotations — there is no bare declaration `x: T`.
+    Missing from the full statement: exactly those three regions (negations below). -/
 theorem erase_docTrans_partial (o : Oracle) (ta : Bool) (m m' : PyAst.Module)
     (hreg : okList ta m = true) (h : docTrans o ta m = .ok m') : erase m' = erase m :=
   (erase_docTransList o ta m [] m' hreg h).1
@@ -128,6 +128,16 @@ theorem erase_docTrans_not_full_double_string : ¬ erase_docTrans_full := by
   have := h { idOracle with newDoc := fun _ _ => none } true
     [.fn false "f" {} [.strExpr " ", .strExpr "second", .other "pass"] [] none]
     [.fn false "f" {} [.strExpr "second", .other "pass"] [] none] rfl
+  simp [erase, eraseList, eraseStmt, eraseBodyList] at this
+
+open DocTransAst PyAst in
+/-- **C07 (ii), negation 3.**  `set_docstring` overwrites a first statement that is a bare name (or `None`):
+    `def f(): None; pass` loses the expression statement `None` when a docstring is generated. -/
+theorem erase_docTrans_not_full_bare_name : ¬ erase_docTrans_full := by
+  intro h
+  have := h { idOracle with newDoc := fun _ _ => some "d" } true
+    [.fn false "f" {} [.expr "None", .other "pass"] [] none]
+    [.fn false "f" {} [.strExpr "d", .other "pass"] [] none] rfl
   simp [erase, eraseList, eraseStmt, eraseBodyList] at this
 
 open DocTransAst PyAst in
